@@ -6,6 +6,9 @@ wire formats
         (the model additionally receives [fix_d16, fix_ctl], detected on the tree under test)
   style [color?, bgcolor?, [13 flags: -1 unset / 0 False / 1 True], link?]   colour as in l_color
   seg   [text, style?, link_id, memo ([] fresh | [sys0]), is_control]
+  hist  [link_id, style, [step...]]   step = [0, cfg, text] write Segment(text, current) on a console |
+        [1] current.without_color | [2] current.copy() | [3, link?] current.update_link | [4, style] current + style |
+        [5, style] style + current       (one Style INSTANCE and what is derived from it, memo state included)
 """
 import os, subprocess, sys
 import common
@@ -13,7 +16,7 @@ from common import s2t, t2s
 
 OPS = {
     "sgr.interp": {}, "ansi.render": {"res": True}, "ansi.print": {"res": True},
-    "ansi.history": {"res": True}, "ansi.parse_history": {"res": True},
+    "ansi.history": {"res": True}, "ansi.parse_history": {"res": True}, "ansi.hist": {"res": True},
 }
 
 SYS_NAME = {0: None, 1: "standard", 2: "256", 3: "truecolor", 4: "windows"}
@@ -104,7 +107,33 @@ def rseg(rng, pool, dirty=False, ctl_ok=True, nl=True):
         text = rng.choice(CONTROL_CODES)
     else:
         text = rtext(rng, dirty and rng.random() < 0.5, nl)
-    return [s2t(text), style, s2t(LID), [], ctl]
+    memo = [rng.randrange(1, 5)] if (style and rng.random() < 0.35) else []     # the object was rendered before
+    return [s2t(text), style, s2t(LID), memo, ctl]
+
+
+def rhist(rng):
+    """one Style instance: renders on consoles of any configuration interleaved with derivations"""
+    main = rng.randrange(1, 5)
+    steps = []
+    for _ in range(rng.choice([2, 3, 4, 5, 6, 8])):
+        r = rng.random()
+        if r < 0.55:
+            cfg = rcfg(rng)
+            if rng.random() < 0.7:
+                cfg[0] = main
+            cfg[1] = 1 if rng.random() < 0.4 else 0
+            steps.append([0, cfg, s2t(rtext(rng, nl=False) or "x")])
+        elif r < 0.67:
+            steps.append([1])
+        elif r < 0.77:
+            steps.append([2])
+        elif r < 0.85:
+            steps.append([3, rlink(rng)])
+        elif r < 0.93:
+            steps.append([4, rstyle(rng)])
+        else:
+            steps.append([5, rstyle(rng)])
+    return [s2t(LID), rstyle(rng), steps]
 
 
 def rcfg(rng):
@@ -176,6 +205,14 @@ def generate(rng, tier):
         n = rng.choice([1, 2, 2, 3, 4])
         syss = [rng.randrange(1, 5) for _ in range(n)]
         cases.append(("ansi.history", [rstyle(rng), s2t(rtext(rng, nl=False) or "x"), s2t(LID), syss]))
+    for _ in range(1200 * k):
+        cases.append(("ansi.hist", rhist(rng)))
+    # the seeded pattern: coloured render, then the same instance on a NO_COLOR console of the same system
+    for sysn in range(1, 5):
+        for _ in range(10 * k):
+            st = rstyle(rng)
+            cases.append(("ansi.hist", [s2t(LID), st, [[0, [sysn, 0, 1, 0], s2t("warm")], [0, [sysn, 1, 1, 0], s2t("hello")],
+                                                       [2], [0, [sysn, 1, 0, 1], s2t("copy")], [0, [sysn, 0, 1, 0], s2t("again")]]]))
     defs = ["#ff0000", "bold red", "on #00ff00", "color(196) on color(21)", "rgb(10,200,30) underline", "bright_blue",
             "italic #808080 on #123456", "default on default", "grey50"]   # no link: get_style() copies linked styles
     for d in defs:
@@ -220,6 +257,8 @@ def model_case(op, arg):
         return "ansi.render", [arg[0] + [d16, ctl], arg[1]]
     if op in ("ansi.history", "ansi.parse_history"):
         return op, [d16] + arg
+    if op == "ansi.hist":
+        return op, [arg[0], arg[1], [[0, st[1] + [d16, ctl], st[2]] if st[0] == 0 else st for st in arg[2]]]
     return op, arg
 
 
@@ -259,12 +298,15 @@ def _segments(segs):
     from rich.segment import Segment
     cache = {}
     out = []
-    for text, style, _lid, _memo, ctl in segs:
+    from rich.color import ColorSystem
+    for text, style, _lid, memo, ctl in segs:
         st = None
         if style:
-            key = common.dumps(style[0])
+            key = common.dumps([style[0], memo])
             if key not in cache or len(cache) % 2:      # equal styles: sometimes one object, sometimes two
                 cache[key] = _style(style[0])
+                if memo:                                 # this instance was rendered before, under colour system memo[0]
+                    cache[key]._make_ansi_codes(ColorSystem(memo[0]))
             st = cache[key]
         out.append(Segment(t2s(text), st, bool(ctl)))
     return out
@@ -305,6 +347,27 @@ def impl(op, arg):
         console = _console(arg[0])
         console.print(_Raw(_segments(arg[1])), end="")
         return s2t(console.file.getvalue())
+    if op == "ansi.hist":
+        from rich.segment import Segment
+        cur = _style(arg[1])
+        outs = []
+        for st in arg[2]:
+            if st[0] == 0:
+                console = _console(st[1])
+                console._buffer.append(Segment(t2s(st[2]), cur))
+                console._check_buffer()
+                outs.append(s2t(console.file.getvalue()))
+            elif st[0] == 1:
+                cur = cur.without_color
+            elif st[0] == 2:
+                cur = cur.copy()
+            elif st[0] == 3:
+                cur = cur.update_link(t2s(st[1][0]) if st[1] else None)
+            elif st[0] == 4:
+                cur = cur + _style(st[1])
+            else:
+                cur = _style(st[1]) + cur
+        return outs
     if op in ("ansi.history", "ansi.parse_history"):
         import io
         from rich.console import Console
@@ -385,6 +448,21 @@ def spec_cases(op, arg, out):
             if not cfg[2]:
                 specs.append(("spec.ansi.no_controls", data))
         return specs
+    if op == "ansi.hist":
+        if out[0] != 0:
+            return []
+        lid, style, steps = arg
+        ok = _link_ok([style])
+        for st in steps:
+            if st[0] == 0:
+                ok = ok and _plain(st[2])
+            elif st[0] == 3:
+                ok = ok and not any(c in (27, 7, 156) for c in (st[1][0] if st[1] else []))
+            elif st[0] in (4, 5):
+                ok = ok and _link_ok([st[1]])
+        if ok:
+            return [("spec.ansi.hist_ok", [lid, style, [[0, st[1] + [1, 1], st[2]] if st[0] == 0 else st for st in steps], out[1]])]
+        return []
     if op == "ansi.history":
         if out[0] != 0:
             return []
